@@ -939,14 +939,10 @@ func c04LinModel() porcupine.Model {
 					if out.Code != 200 {
 						return false, st
 					}
-					// the trashed (old) copy is renamed over whatever is live; from
-					// the client's view the block is live. Whether it counts as old or
-					// new afterwards is what the T1 clause of part (a) decides; here
-					// both are admitted by keeping "new" only if it was new.
+					// the restored copy gets a current timestamp before it is
+					// renamed into place, so it counts as new
 					st.Trashed = false
-					if st.Live == 0 {
-						st.Live = 1
-					}
+					st.Live = 2
 					return true, st
 				}
 				return out.Code != 200, st
